@@ -27,7 +27,15 @@ on the protos, whatever planted them); values whose ROLE and PAYLOAD disagree in
 is not a registered initializer is a hint that serialisation ignores: required main-graph inputs that carry one (built that
 way, or registered as initializer and popped from ``graph.initializers`` again) next to a real initializer with the same
 bytes, Loop-body and function formal inputs that carry one, node outputs with a truthful one (``reach:*_on_hinted_*``, read
-from the rebuilt IR model - deserialisation drops hints).  Outside the judged domain: initializers
+from the rebuilt IR model - deserialisation drops hints); attribute values that Python calls FALSY and that are values
+all the same (0, 0.0, "", empty lists; gen_exec ``fn_attr_falsy``, a fixed stratum of the case plan - ``FALSY_STRATUM`` -
+whose first sequence holds an InlinePass): as the DEFAULT of a function's attribute parameter with call sites that omit
+it, as the explicit value at a call site whose parameter has another default, forwarded through a wrapper function, on
+plain operator nodes next to a twin without the attribute - always on operator attributes whose own default is another
+value or that are required (``reach:call_relying_on_falsy_default_inlined``, ``reach:call_giving_falsy_attribute_value_inlined``,
+decided on the protos).  A reachable ``Constant`` node left without any value attribute is a refuting event of its
+own (``constant-without-value``; P(M) computes nothing there, the default-mode checker does not look and onnxruntime
+refuses to load the model, so no evaluator could tell).  Outside the judged domain: initializers
 without a tensor (the library itself calls them invalid), function parameters of GRAPH type (the inliner documents
 that it refuses them), string tensors with trailing NUL bytes (both evaluators drop them when handing out strings).
 
@@ -87,6 +95,12 @@ ASSUMPTIONS = [
     "'for all inputs' is sampled by 3 input sets per model; +0.0 and -0.0 compare equal (IEEE), NaN equals NaN",
     "string outputs are compared as UTF-8 bytes element by element (an evaluator returns str, bytes or object arrays "
     "depending on whether the value came from a Constant attribute or an initializer)",
+    "onnx.inliner.inline_local_functions (used only to probe an EVALUATOR's self-consistency) ignores the defaults of "
+    "function attribute parameters (probe, onnx 1.22): it is handed a copy in which every call lists the defaulted "
+    "parameters it relies on (proto-level rewrite by the harness), and is not used when a call omits a parameter that "
+    "has no default",
+    "a standard-domain Constant node must carry one of the value attributes (ONNX operator specification); a reachable "
+    "one without any is judged structurally, only when M has none and no call of M omits a default-less parameter",
     "two seedless non-deterministic nodes (RandomNormal/Uniform[Like] 16 floats, Multinomial 40 draws of 3 classes, "
     "Bernoulli / training Dropout 64 elements at p=0.5) do not produce identical tensors: probability < 2**-60 per run",
 ]
